@@ -178,6 +178,20 @@ func (c *c18Creds) set(s *auth.CredentialsStore) {
 // ---------------------------------------------------------------- the rig
 
 type c18Rig struct {
+	// The services under test are given a REAL *auth.CredentialsStore, loaded from the case's
+	// credentials file through Load as in production (so every optional interface the real store
+	// offers is in play); they are rebuilt whenever the file changes.  A second, persistent pair of
+	// services is given a wrapper that offers nothing but AA (what the repository's own mocks offer).
+	realKey                      string
+	realClose                    []func()
+	mkHTTP                       func(cs CredentialStore) (*Service, func())
+	mkNode                       func(cs cluster.CredentialStore) (string, chan uint64, func())
+	httpReal                     *Service
+	muxReal                      string
+	hwmReal                      chan uint64
+	httpWrap                     *Service
+	muxWrap                      string
+	hwmWrap                      chan uint64
 	rec      *c18Rec
 	creds    *c18Creds
 	httpAuth *Service // credential store configured
@@ -193,18 +207,15 @@ func c18NewRig(t *testing.T) *c18Rig {
 	r := &c18Rig{rec: &c18Rec{}, creds: &c18Creds{cur: auth.NewCredentialsStore()}}
 	node := &c18Node{rec: r.rec}
 	cl := &c18Clstr{rec: r.rec}
-	mkHTTP := func(cs CredentialStore) *Service {
+	r.mkHTTP = func(cs CredentialStore) (*Service, func()) {
 		s := New("127.0.0.1:0", node, cl, proxy.New(node, cl), cs)
 		s.logger.SetOutput(io.Discard)
 		if err := s.Start(); err != nil {
 			t.Fatalf("http start: %v", err)
 		}
-		r.closers = append(r.closers, s.Close)
-		return s
+		return s, s.Close
 	}
-	r.httpAuth = mkHTTP(r.creds)
-	r.httpOpen = mkHTTP(nil)
-	mkNode := func(cs cluster.CredentialStore) (string, chan uint64) {
+	r.mkNode = func(cs cluster.CredentialStore) (string, chan uint64, func()) {
 		ln, err := net.Listen("tcp", "127.0.0.1:0")
 		if err != nil {
 			t.Fatal(err)
@@ -222,16 +233,46 @@ func c18NewRig(t *testing.T) *c18Rig {
 		if err := svc.Open(); err != nil {
 			t.Fatal(err)
 		}
-		r.closers = append(r.closers, func() { ln.Close() })
-		return ln.Addr().String(), ch
+		return ln.Addr().String(), ch, func() { ln.Close() }
 	}
-	r.muxAuth, r.hwmAuth = mkNode(r.creds)
-	r.muxOpen, r.hwmOpen = mkNode(nil)
+	var c1, c2, c3, c4 func()
+	r.httpWrap, c1 = r.mkHTTP(r.creds)
+	r.httpOpen, c2 = r.mkHTTP(nil)
+	r.muxWrap, r.hwmWrap, c3 = r.mkNode(r.creds)
+	r.muxOpen, r.hwmOpen, c4 = r.mkNode(nil)
+	r.closers = append(r.closers, c1, c2, c3, c4)
 	return r
 }
 
+// useStore points httpAuth / muxAuth at services holding the credentials of [file]: the real store
+// itself, or (aaOnly) the AA-only wrapper around it.
+func (r *c18Rig) useStore(file []c18Entry, aaOnly bool) error {
+	js, _ := json.Marshal(c18FileJSON(file))
+	cs := auth.NewCredentialsStore()
+	if err := cs.Load(bytes.NewReader(js)); err != nil {
+		return err
+	}
+	if aaOnly {
+		r.creds.set(cs)
+		r.httpAuth, r.muxAuth, r.hwmAuth = r.httpWrap, r.muxWrap, r.hwmWrap
+		return nil
+	}
+	if key := string(js); key != r.realKey || r.realClose == nil {
+		for _, f := range r.realClose {
+			f()
+		}
+		var c1, c2 func()
+		r.httpAuth, c1 = r.mkHTTP(cs)
+		r.muxAuth, r.hwmAuth, c2 = r.mkNode(cs)
+		r.realClose, r.realKey = []func(){c1, c2}, key
+		r.httpReal, r.muxReal, r.hwmReal = r.httpAuth, r.muxAuth, r.hwmAuth
+	}
+	r.httpAuth, r.muxAuth, r.hwmAuth = r.httpReal, r.muxReal, r.hwmReal
+	return nil
+}
+
 func (r *c18Rig) close() {
-	for _, f := range r.closers {
+	for _, f := range append(r.closers, r.realClose...) {
 		f()
 	}
 }
@@ -269,6 +310,7 @@ type c18StepIn struct {
 type c18Conn struct {
 	Kind    string      `json:"kind"`
 	NoStore bool        `json:"no_store"`
+	AAOnly  bool        `json:"aa_only_store,omitempty"` // the store is offered to the service through a wrapper that has AA and nothing else
 	File    []c18Entry  `json:"file"`
 	Steps   []c18StepIn `json:"steps"`
 }
@@ -925,13 +967,10 @@ func c18RunConn(w *vWriter, r *c18Rig, cn c18Conn) {
 	if cn.NoStore {
 		cn.File = nil
 	} else {
-		js, _ := json.Marshal(c18FileJSON(cn.File))
-		cs := auth.NewCredentialsStore()
-		if err := cs.Load(bytes.NewReader(js)); err != nil {
+		if err := r.useStore(cn.File, cn.AAOnly); err != nil {
 			w.Emit(VCase{Input: cn, Key: vJSON(cn), Inconcl: "credentials file did not load: " + err.Error()})
 			return
 		}
-		r.creds.set(cs)
 	}
 	var obs []c18Obs
 	var err error
@@ -952,7 +991,8 @@ func c18RunConn(w *vWriter, r *c18Rig, cn c18Conn) {
 	for len(obs) < len(cn.Steps) {
 		obs = append(obs, c18Obs{}) // requests the connection did not live to see answered
 	}
-	c := VCase{Input: cn, Key: vJSON(cn), Tags: []string{cn.Kind, fmt.Sprintf("requests-on-connection=%d", len(cn.Steps))}}
+	c := VCase{Input: cn, Key: vJSON(cn), Tags: []string{cn.Kind, fmt.Sprintf("requests-on-connection=%d", len(cn.Steps)),
+		map[bool]string{true: "store=aa-only-wrapper", false: "store=real-CredentialsStore"}[cn.AAOnly]}}
 	var steps []string
 	for i := range cn.Steps {
 		in, o := cn.step(i), obs[i]
@@ -1039,14 +1079,22 @@ func c18Oracle(c *VCase, in c18Input, o c18Obs, voter bool, stepIdx int) {
 	}
 }
 
+// c18FileJSON renders the credentials file the way files are written in practice: an empty field
+// is sometimes spelled out and sometimes left out (here: left out in every second entry) — the
+// loader must treat both alike.
 func c18FileJSON(f []c18Entry) []map[string]any {
 	out := []map[string]any{}
-	for _, e := range f {
-		p := e.Perms
-		if p == nil {
-			p = []string{}
+	for i, e := range f {
+		m := map[string]any{"username": e.User}
+		if e.Pass != "" || i%2 == 0 {
+			m["password"] = e.Pass
 		}
-		out = append(out, map[string]any{"username": e.User, "password": e.Pass, "perms": p})
+		if len(e.Perms) > 0 {
+			m["perms"] = e.Perms
+		} else if i%2 == 0 {
+			m["perms"] = []string{}
+		}
+		out = append(out, m)
 	}
 	return out
 }
@@ -1115,6 +1163,18 @@ func c18Stores() [][]c18Entry {
 	for _, p := range c18Perms {
 		fs = append(fs, []c18Entry{{"*", "", []string{p}}, {"u1", "pw1", []string{}}})
 	}
+	// partial grants against the multi-permission requirements: '*' holds one half and the user the
+	// other (authorized: every permission is granted by some route), '*' holds both, '*' holds all,
+	// the user holds one half only, and the join permissions split between '*' and the user
+	fs = append(fs,
+		[]c18Entry{{"*", "", []string{"query"}}, {"u1", "pw1", []string{"execute"}}},
+		[]c18Entry{{"*", "", []string{"execute"}}, {"u1", "pw1", []string{"query"}}},
+		[]c18Entry{{"*", "", []string{"query", "execute"}}, {"u1", "pw1", []string{}}},
+		[]c18Entry{{"*", "", []string{"all"}}},
+		[]c18Entry{{"*", "", []string{"query"}}, {"u1", "pw1", []string{"query"}}, {"u2", "pw2", []string{"execute"}}},
+		[]c18Entry{{"*", "", []string{"join-read-only"}}, {"u1", "pw1", []string{"join"}}},
+		[]c18Entry{{"*", "", []string{"join-read-replica"}}, {"u1", "pw1", []string{"join-read-only"}}},
+	)
 	return fs
 }
 
@@ -1168,6 +1228,19 @@ func TestVerif_C18(t *testing.T) {
 		for _, s := range basic {
 			for _, p := range c18Presentations {
 				c18Run(w, r, mk(s, f, p))
+			}
+		}
+	}
+	// the same through the AA-only wrapper (a store that offers the services nothing but AA), on every sixth file and the last three
+	for i, f := range stores {
+		if i%6 != 0 && i < len(stores)-3 {
+			continue
+		}
+		for _, s := range basic {
+			for _, p := range c18Presentations {
+				in := mk(s, f, p)
+				c18RunConn(w, r, c18Conn{Kind: in.Kind, AAOnly: true, File: in.File,
+					Steps: []c18StepIn{{in.Endpoint, in.Variant, in.Present, in.User, in.Pass}}})
 			}
 		}
 	}
